@@ -284,3 +284,29 @@ PROPS["C02"] = {
          "preempts": {"quick": 2, "thorough": 3}, "params": {"quick": {}, "thorough": {}}},
     ],
 }
+
+FRAME_STUBS = {"google.golang.org/protobuf/proto.Size": "github.com/tsuna/gohbase/region.vSize",
+               "(google.golang.org/protobuf/proto.MarshalOptions).MarshalAppend": "github.com/tsuna/gohbase/region.vMarshalAppend"}
+
+PROPS["C05"] = {
+    "files": ["region/fakes.go", "region/c02_correlation.go", "region/c15_compressor.go", "region/c05_frames.go"],
+    "claim": "Frame level: every sequence of CALLS single calls (gets with / without priority, puts with 0..2 cells), with and without "
+             "cellblock compression, and every multi-request of CALLS calls over two regions (every grouping, every map iteration "
+             "order) is written as whole frames: length prefix = delimited header + delimited request + cellblocks; header carries "
+             "the method, a call id unique on the connection and registered for that request, the priority iff > 0 (no leak through the "
+             "header pool), cell_block_meta.length = trailing cellblock; request rows / region names / associated_cell_count match the "
+             "calls; cellblocks follow the order of the actions; two concurrent senders on a non-TCP net.Conn never interleave frames; "
+             "preamble and connection header first. The protobuf-struct content of each request kind is covered by C10/C01/C06.",
+    "outside": "protobuf-go's wire encoding of the structs (a contract stub in the engine, the real encoder in native replay); kernel "
+               "writev atomicity for TCP sockets; more than CALLS calls; scans and check-and-put frames (single-call path, same code)",
+    "assumptions": ["proto.Size / MarshalAppend are a contract stub in the engine: fixed size, content = the message snapshot"],
+    "jobs": [
+        {"name": "single_frames", "pkg": "region", "entry": "VerifSingleFrames", "stubs": FRAME_STUBS, "reach": ["frames"], "native_retries": 6,
+         "params": {"quick": {"CALLS": 2}, "thorough": {"CALLS": 3}}},
+        {"name": "multi_frame", "pkg": "region", "entry": "VerifMultiFrame", "stubs": FRAME_STUBS, "reach": ["multi"], "native_retries": 10,
+         "params": {"quick": {"CALLS": 3}, "thorough": {"CALLS": 4}}},
+        {"name": "concurrent_senders", "pkg": "region", "entry": "VerifConcurrentSenders", "stubs": FRAME_STUBS, "reach": ["two-senders"],
+         "preempts": {"quick": 2, "thorough": 3}, "params": {"quick": {}, "thorough": {}}},
+        {"name": "hello", "pkg": "region", "entry": "VerifHello", "reach": ["hello"], "params": {"quick": {"protoMax": 3}, "thorough": {"protoMax": 6}}},
+    ],
+}
